@@ -234,6 +234,9 @@ func (s *Solver) Check(tc *TermCtx, pc []*Term, extra *Term, vars []*Term) (Resu
 	if s.Log != nil {
 		fmt.Fprintf(s.Log, "; took %v\n", time.Since(tq))
 	}
+	if d := time.Since(tq); d > 3*time.Second && os.Getenv("GOSYM_PROGRESS") != "" {
+		fmt.Fprintf(os.Stderr, "slow query (%v, %s): %.300s\n", d, s.Kind, s.buf.String())
+	}
 	if err != nil {
 		s.fail("read: " + err.Error())
 		return Unknown, nil
